@@ -55,6 +55,26 @@ def gen_cases(ctx, rng):
         cases.append({"dir": rng.choice(["upstream", "downstream"]), "chain": chain, "src": src, "ops": ops, "interrupted": True,
                       "horizon": 36000 * 1000 * L.MS, "seed": 7000 + i})
         stats["interrupted"] += 1
+    # a receiver that stalls now and then (takes 50-800 ms over some writes), a tiny message long after an earlier one, then bulk: the rate
+    # bound holds from the first byte on, whatever the receiver did in between (time spent waiting for the receiver is not credit)
+    stats["receiver_stalls"] = 0
+    for i in range(20 if ctx.tier == "quick" else 500):
+        R = rng.choice([10, 100, 1000])
+        chain = [L.tx("bandwidth", name="b", rate=R)] + ([L.tx("noop", name="m")] if rng.chance(1, 3) else [])
+        lim = min(100 * R, 32768)
+        src, t = [], 1 * L.MS
+        if i % 2:
+            src.append({"at": t, "n": rng.range(1, lim)})
+            t += rng.range(200, 1500) * L.MS
+            src.append({"at": t, "n": rng.choice([1, 2, 7])})                  # a tiny message a while later
+            t += rng.range(0, 300) * L.MS
+        for _ in range(rng.range(8, 20)):
+            src.append({"at": t, "n": rng.range(lim // 2 + 1, lim)})           # bulk, back to back (from the first byte on when i is even)
+        src.append({"at": t + 600000 * L.MS, "close": True})
+        delays = [0] * rng.range(1, 3) + [rng.choice([50, 300, 800]) * L.MS] + [0] * 40      # one stall early in the transfer
+        cases.append({"dir": rng.choice(["upstream", "downstream"]), "chain": chain, "src": src, "sink_delay": delays,
+                      "horizon": 36000 * 1000 * L.MS, "seed": 9500 + i})
+        stats["receiver_stalls"] += 1
     # several connections through the same bandwidth toxic at once (one toxic object serves every link of the proxy): the rate is per
     # connection - a bulk transfer must not speed up, nor small messages slow down, because another connection is busy
     stats["shared_by_connections"] = 0
